@@ -1331,6 +1331,8 @@ struct RingCase {
     other: usize, // 0: stay, 1: go to the last state, 2: go to state 0
     d: usize,
     extra: usize, // number of additional unreachable copies of state 1
+    /// 0: final iff q mod d == 0; 1: final iff q < d
+    fkind: usize,
 }
 
 fn ring_delta(c: &RingCase, q: usize, letter: usize) -> usize {
@@ -1345,13 +1347,19 @@ fn ring_delta(c: &RingCase, q: usize, letter: usize) -> usize {
         _ => match c.other {
             0 => q,
             1 => n - 1,
-            _ => 0,
+            2 => 0,
+            // two-letter automata: every character other than 'a' follows the affine map
+            _ => (q * c.bm + c.bc) % n,
         },
     }
 }
 fn ring_final(c: &RingCase, q: usize) -> bool {
     let q = if q >= c.n { 1 } else { q };
-    q % c.d == 0
+    if c.fkind == 0 {
+        q % c.d == 0
+    } else {
+        q < c.d
+    }
 }
 fn ring_build(c: &RingCase) -> Result<Automaton, aws_smt_strings::errors::Error> {
     let mut b = AutomatonBuilder::new(&0usize);
@@ -1375,16 +1383,40 @@ fn ring_cases(tier: Tier) -> Vec<RingCase> {
                 for d in [2usize, 3, 5, 7, n] {
                     for extra in [0usize, 2] {
                         if tier == Tier::Quick && (v.len() % 2 == 1) {
-                            v.push(RingCase { n: 0, bm, bc, other, d, extra });
+                            v.push(RingCase { n: 0, bm, bc, other, d, extra, fkind: 0 });
                             continue;
                         }
-                        v.push(RingCase { n, bm, bc, other, d, extra });
+                        v.push(RingCase { n, bm, bc, other, d, extra, fkind: 0 });
                     }
                 }
             }
         }
     }
     v.retain(|c| c.n > 0);
+    // small rings: every affine map q -> m*q + c mod n for the letter b, 5 to 12 (thorough 20) states
+    let nmax = if tier == Tier::Thorough { 20 } else { 12 };
+    for n in 5..=nmax {
+        for bm in 0..n {
+            for bc in 0..n {
+                for other in 0..3 {
+                    for (fkind, d) in [(0usize, 2usize), (0, 3), (0, n), (1, 1), (1, n / 2), (1, n - 1)] {
+                        v.push(RingCase { n, bm, bc, other, d, extra: 0, fkind });
+                    }
+                }
+            }
+        }
+    }
+    // two letters only (a: +1, everything else: the affine map), up to 16 (thorough 24) states
+    let nmax2 = if tier == Tier::Thorough { 24 } else { 16 };
+    for n in 5..=nmax2 {
+        for bm in 0..n {
+            for bc in 0..n {
+                for (fkind, d) in [(0usize, 2usize), (0, 3), (0, n), (1, 1), (1, n / 2), (1, n - 1)] {
+                    v.push(RingCase { n, bm, bc, other: 3, d, extra: 0, fkind });
+                }
+            }
+        }
+    }
     v
 }
 const RING_NB: usize = 48;
@@ -1396,7 +1428,7 @@ impl Engine for RingEngine {
     fn meta(&self, ctx: &Ctx) -> Meta {
         Meta {
             level: "model_checking",
-            rule: format!("{} automata with 17 to 100 (thorough 200) states: a -> q+1 mod n, b -> an affine map mod n (6 maps, most of them not injective), other -> stay / last state / state 0, final iff q mod d == 0 for d in {{2,3,5,7,n}}, with and without two unreachable copies of a state; many states are equivalent, so the refinement works on large blocks; same checks as for the exhaustive small automata (expected size by own Moore refinement), including sequences of minimize / remove_unreachable_states", ring_cases(ctx.tier).len()),
+            rule: format!("{} automata with 17 to 100 (thorough 200) states: a -> q+1 mod n, b -> an affine map mod n (6 maps, most of them not injective), other -> stay / last state / state 0, final iff q mod d == 0 for d in {{2,3,5,7,n}}, with and without two unreachable copies of a state; plus all automata with 5 to 12 (thorough 20) states whose b-map is ANY affine map q -> m*q+c mod n, with six final-set shapes, over three letters and over two letters (up to 16, thorough 24, states); many states are equivalent, so the refinement works on large blocks; same checks as for the exhaustive small automata (expected size by own Moore refinement), including sequences of minimize / remove_unreachable_states", ring_cases(ctx.tier).len()),
             assumptions: vec!["structured, not exhaustive: added because size-dependent code (blocks of more than 16 or 32 states) is out of reach of the exhaustive families".into()],
             exhaustive: true,
             space: "see rule".into(),
@@ -1428,13 +1460,13 @@ impl Engine for RingEngine {
             // identity numbering (states are mentioned in order 0..n)
             let msgs = if self.kind == DKind::C13 { ring_c13(c, &chars, &spec, &fin) } else { automaton_case(self.kind, total, &|| ring_build(c), &chars, &spec, &fin, true, rep) };
             if !msgs.is_empty() {
-                rep.violation(self.kind.id(), "ring", json!({"engine": "ring", "n": c.n, "bm": c.bm, "bc": c.bc, "other": c.other, "d": c.d, "extra": c.extra}), format!("ring automaton {:?}: {}", c, msgs.join(" | ")));
+                rep.violation(self.kind.id(), "ring", json!({"engine": "ring", "n": c.n, "bm": c.bm, "bc": c.bc, "other": c.other, "d": c.d, "extra": c.extra, "fkind": c.fkind}), format!("ring automaton {:?}: {}", c, msgs.join(" | ")));
             }
         }
     }
     fn replay(&self, _ctx: &Ctx, v: &Value, rep: &mut Report) {
         let us = |x: &Value| x.as_u64().unwrap_or(0) as usize;
-        let c = RingCase { n: us(&v["n"]), bm: us(&v["bm"]), bc: us(&v["bc"]), other: us(&v["other"]), d: us(&v["d"]).max(1), extra: us(&v["extra"]) };
+        let c = RingCase { n: us(&v["n"]), bm: us(&v["bm"]), bc: us(&v["bc"]), other: us(&v["other"]), d: us(&v["d"]).max(1), extra: us(&v["extra"]), fkind: us(&v["fkind"]) };
         if c.n < 2 {
             return;
         }
